@@ -32,6 +32,8 @@ from rdflib import BNode, Graph, Literal, URIRef
 from rdflib.compare import graph_diff, isomorphic, to_canonical_graph, to_isomorphic
 
 warnings.filterwarnings("ignore", category=DeprecationWarning)
+import logging  # noqa: E402
+logging.getLogger("rdflib.term").setLevel(logging.ERROR)   # "… does not look like a valid URI" for odd blank-node ids
 
 ID = "C14"
 LEAN_TARGETS = ["RV.C14.Props", "RV.C14.Audit"]
@@ -39,7 +41,8 @@ AUDIT = "RV/C14/Audit.lean"
 DRIVER = "drv_c14"
 N_EXH = None  # number of exhaustive class cases (computed lazily)
 CASES = {"quick": 380, "thorough": 12000, "search": 6000}
-RULE = ("pairs (g, relabel+shuffle g), (g, degree-preserving edge switch / edge move / predicate or ground-term change of g), "
+RULE = ("pairs (g, relabel+shuffle g), (g, degree-preserving edge switch / edge move / predicate or ground-term change / "
+        "near-miss literal edit (text case, tag, tag case, plain vs xsd:string, leading zero) of g), "
         "known non-isomorphic regular twins, over cycles, bidirected cycles, K_{m,n}, disjoint (non-)identical components, "
         "prisms, cube, Moebius ladders, Petersen, CFI(C3), rdf lists, star-of-stars, random sparse graphs mixing IRIs / "
         "literals / bnodes; skolemise->de-skolemise round trips (default / custom authority / custom basepath incl. the "
@@ -53,7 +56,9 @@ RULE = ("pairs (g, relabel+shuffle g), (g, degree-preserving edge switch / edge 
         "non-trivial = some blank nodes are not separated by colour refinement alone (symmetric structure) or, for skolem "
         "cases, the graph has >=2 blank nodes; distinct = distinct (kind, family, how, colour-class profile, sizes)")
 ASSUMPTIONS = ["blank nodes do not occur in predicate position (not RDF)",
-               "blank-node labels follow the N-Triples BLANK_NODE_LABEL grammar (no '/', '?', '#', ';')",
+               "blank-node ids are arbitrary strings (Python API) incl. '/', '#', '?', '%', ';', spaces, '<', empty; ids with a "
+               "'.'/'..' path segment or containing '/.well-known/genid/' are known finding C14-K2 (skolemize cannot "
+               "encode them faithfully); the Lean round-trip theorems assume the urllib contract LabelOk per label",
                "SHA-256 sums used as colour / graph digests do not collide on the generated inputs"]
 TRUSTED = ["harness/c14.py generators, term numbering and canonicalisation", "lean/RV/C14/Drive.lean line protocol and "
            "string interning", "harness/isoutil.py (cross-validated against the verified isoDecide on every case "
@@ -288,6 +293,10 @@ FAMILIES = {
     "perm2": lambda r: (lambda n: perm_graph(r, n, P) + perm_graph(r, n, Q))(r.randint(4, 7)),
     "perm2-uneven": lambda r: perm_graph(r, r.randint(4, 7), P) + perm_graph(r, r.randint(3, 6), Q),
     "rand-regular": lambda r: rand_regular(r, r.randint(5, 9), r.choice([1, 2, 2])),
+    # near-miss literals ("Foo"@en / "foo"@en / "Foo"@EN / "Foo" / "Foo"^^xsd:string / "1" / "01") on blank nodes and in
+    # ground triples: the digest hashes the TEXT of terms
+    "literals": lambda r: with_literals(r, r.choice([cycle(r.randint(2, 5)), perm_graph(r, r.randint(3, 5)), kmn(1, 3),
+                                                     star_of_stars(2, 1), []])),
     "prism": lambda r: prism(r.choice([3, 3, 4, 4, 5])),
     "mobius": lambda r: mobius(r.choice([3, 4, 4, 5])),
     "petersen": lambda r: petersen(),
@@ -298,7 +307,7 @@ FAMILIES = {
     "ground": lambda r: [[r.choice(GROUND[:3]), r.choice([P, Q]), r.choice(GROUND)] for _ in range(r.randint(0, 4))],
 }
 FAM_WEIGHTS = [("cycle", 12), ("cycle-big", 3), ("kmn", 9), ("copies", 10), ("mixed-cycles", 10), ("orbits", 9), ("orbits-regular", 3), ("perm", 6), ("perm2", 14), ("perm2-uneven", 4),
-               ("rand-regular", 6), ("prism", 7), ("mobius", 6),
+               ("rand-regular", 6), ("literals", 16), ("prism", 7), ("mobius", 6),
                ("petersen", 3), ("cfi", 4), ("lists", 6), ("stars", 7), ("sparse", 18), ("ground", 3)]
 TWINS = [
     ("c6|2c3", lambda: cycle(6, True), lambda: disjoint(cycle(3, True), cycle(3, True))),
@@ -314,6 +323,72 @@ TWINS = [
     ("c4c4c3|c3c3c5", lambda: disjoint(cycle(4, True), cycle(4, True), cycle(3, True)),
      lambda: disjoint(cycle(3, True), cycle(3, True), cycle(5, True))),
 ]
+
+
+XS = "<" + XSD + "string>"
+XI = "<" + XSD + "integer>"
+NEAR_LITS = ['"Foo"@en', '"foo"@en', '"Foo"@EN', '"Foo"@de', '"Foo"', '"foo"', '"Foo"^^' + XS, '"1"^^' + XI, '"01"^^' + XI,
+             '"FOO"@en-GB', '"Foo"@en-gb', '"Foo"@en-GB', '"Straße"@de', '"STRASSE"@de']
+
+
+def is_lit(x):
+    return type(x) is str and x.startswith('"')
+
+
+def near_miss(rng, lit):
+    """(variant, kind): a literal that differs from `lit` as little as possible.  `tagcase` gives an EQUAL rdflib term
+    (graphs stay isomorphic), every other kind a different term"""
+    k = lit.rfind('"')
+    lex, rest = lit[1:k], lit[k + 1:]
+    opts = []
+    if rest.startswith("@"):
+        opts += [('"%s"@%s' % (lex.swapcase(), rest[1:]), "textcase"), ('"%s"@%s' % (lex.lower(), rest[1:]), "textcase"),
+                 ('"%s"@%s' % (lex, "de" if not rest[1:].lower().startswith("de") else "en"), "othertag"),
+                 ('"%s"@%s' % (lex, rest[1:].swapcase()), "tagcase"), ('"%s"' % lex, "droptag")]
+    elif rest == "":
+        opts += [('"%s"^^%s' % (lex, XS), "plain-vs-xsdstring"), ('"%s"' % lex.swapcase(), "textcase"), ('"%s"@en' % lex, "addtag")]
+    else:
+        opts += [('"0%s"%s' % (lex, rest), "leading-zero"), ('"%s"' % lex, "droptype"), ('"%s"%s' % (lex.swapcase(), rest), "textcase")]
+    opts = [(v, kd) for v, kd in opts if v != lit]
+    return rng.choice(opts)
+
+
+def with_literals(rng, g):
+    """attach near-miss-prone literals to the nodes and to an IRI (ground triples)"""
+    g = [list(t) for t in g]
+    n = nnodes(g)
+    same = rng.random() < 0.5
+    l0 = rng.choice(NEAR_LITS)
+    for i in range(n):
+        g.append([i, Q, l0 if same else rng.choice(NEAR_LITS)])
+    for _ in range(rng.randint(1, 2)):
+        t = ["<http://e/a>", Q, rng.choice(NEAR_LITS)]
+        if t not in g:
+            g.append(t)
+    return g
+
+
+NEAR_KINDS = [('"Foo"@en', "textcase"), ('"Straße"@de', "textcase"), ('"Foo"@en', "othertag"), ('"Foo"@en-GB', "tagcase"),
+              ('"Foo"', "plain-vs-xsdstring"), ('"1"^^' + XI, "leading-zero"), ('"Foo"', "textcase"), ('"Foo"@en', "droptag")]
+
+
+def gen_nearmiss(rng, spec):
+    """every run: one pair per kind of near-miss literal edit, on a blank node or in a ground triple"""
+    lit, kind = spec
+    v = None
+    while v is None:
+        cand, kd = near_miss(rng, lit)
+        v = cand if kd == kind else None
+    base = rng.choice([cycle(rng.randint(2, 4)), perm_graph(rng, 3), kmn(1, 2), []])
+    n = nnodes(base)
+    a = [list(t) for t in base] + [[i, Q, lit] for i in range(n)] + [["<http://e/a>", Q, lit]]
+    where = rng.randrange(n + 1)
+    b = [list(t) for t in a]
+    k = len(base) + where                      # one literal occurrence edited: on node `where` or in the ground triple
+    b[k] = [b[k][0], b[k][1], v]
+    g1, _ = render(rng, a)
+    g2, _ = render(rng, b)
+    return {"kind": "pair", "fam": "literals", "how": "mutate-lit-" + kind, "g1": g1, "g2": g2, "map": None}
 
 
 def decorate(rng, g):
@@ -340,6 +415,13 @@ def mutate(rng, g):
     bb = [t for t in g if isinstance(t[0], int) and isinstance(t[2], int)]
     n = nnodes(g)
     have = {tuple(t) for t in g}
+    lits = [t for t in g if is_lit(t[2])]
+    if lits and rng.random() < 0.45:
+        t = rng.choice(lits)
+        v, kd = near_miss(rng, t[2])
+        new = [t[0], t[1], v]
+        if tuple(new) not in have and (T(v) == T(t[2]) or not any(T(v) == T(x[2]) and x[:2] == t[:2] for x in lits)):
+            return [x for x in g if x != t] + [new], "lit-" + kd
     for _try in range(30):
         r = rng.random()
         if r < 0.45 and len(bb) >= 2:
@@ -570,6 +652,8 @@ def gen_case0(rng, tier, i):
         n, _e, _l, m = classes()[i]
         return {"kind": "exh", "n": n, "mask": m}
     j = i - (len(classes()) if tier == "thorough" else 0)
+    if 5 <= j < 5 + len(NEAR_KINDS) or (tier == "thorough" and j % 97 == 11):
+        return gen_nearmiss(rng, NEAR_KINDS[(j - 5) % len(NEAR_KINDS)])
     if j in (3, 211) or (tier == "thorough" and j % 1500 == 7):
         return gen_skolem_big(rng, "external-basepath" if j == 3 else rng.choice(["default", "external-basepath"]))
     r = rng.random()
@@ -610,6 +694,27 @@ def gen_multi(rng, fam, a, k):
         gs.append(g)
         maps.append({x: y for x, y in zip(lab0, lab)})
     return {"kind": "multi", "fam": fam, "gs": gs, "maps": maps}
+
+
+def _alt(a, b):
+    return lambda i: (a if i % 2 else b) % (i // 2)
+
+
+# blank-node ids are arbitrary strings in the Python API: ids with URL delimiters, sharing their last segment / suffix
+ODD_IDS = [_alt("person/%d", "address/%d"), _alt("x/y/%d", "z/y/%d"), _alt("a#%d", "b#%d"), _alt("q?%d", "r?%d"),
+           _alt("p%%20%d", "q%%20%d"), _alt("sp ace %d", "other ace %d"), _alt("semi;%d", "colon;%d"), lambda i: "%d/" % i,
+           lambda i: "/lead%d" % i, _alt("a//%d", "a/%d"), _alt("ä/%d", "ö/%d"), _alt("a<%d", "a>%d"),
+           lambda i: "" if i == 0 else "n%d" % i]
+# ids for which skolemize cannot produce a faithful IRI (known finding C14-K2): dot segments, the genid path itself
+K2_IDS = [lambda i: "x/../b" if i == 0 else "b" if i == 1 else "n%d" % i, lambda i: "./b" if i == 0 else "b" if i == 1 else "n%d" % i,
+          lambda i: "a/./b" if i == 0 else "a/b" if i == 1 else "n%d" % i,
+          lambda i: "x/.well-known/genid/rdflib/y" if i == 0 else "n%d" % i, lambda i: ".." if i == 0 else "n%d" % i]
+
+
+def k2_ids(triples):
+    """blank-node ids with a '.' / '..' path segment (urljoin removes them) or containing the genid path"""
+    return sorted({x for t in triples for x in (t[0], t[2]) if is_b(x)
+                   and (any(seg in (".", "..") for seg in x[2:].split("/")) or GENID in x)})
 
 
 SK_LABELS = ["b%d", "N%dabcdef0123456789", "x.%d-y", "%d", "a:%d", "é%d", "_%d", "cb%d", "B_%d.z"]
@@ -659,7 +764,15 @@ def gen_skolem(rng):
     fam = rng.choice(["sparse", "sparse", "cycle", "lists", "stars", "kmn"])
     a = FAMILIES[fam](rng)
     pat = rng.choice(SK_LABELS)
-    g, lab = render(rng, a, style=lambda i, r: pat % i)
+    style = lambda i, r: pat % i   # noqa: E731
+    rr = rng.random()
+    if rr < 0.30:
+        f = rng.choice(ODD_IDS)
+        style = lambda i, r: f(i)   # noqa: E731
+    elif rr < 0.34:
+        f = rng.choice(K2_IDS)
+        style = lambda i, r: f(i)   # noqa: E731
+    g, lab = render(rng, a, style=style)
     r = rng.random()
     if r < 0.10 and g:
         # an IRI that is already under the well-known genid path (known finding C14-K1) or a near miss
@@ -808,7 +921,7 @@ def model_lines(case):
         l = pair_model_line(case)
         return [l, "diff"] if l else []
     if case["kind"] == "skolem":
-        return [skolem_line(case)]
+        return [] if k2_ids(case["g"]) else [skolem_line(case)]
     if case["kind"] == "exh":
         g, partners, rel = exh_graphs(case)
         return [iso_line(g, h) for h in partners + rel]
@@ -828,7 +941,7 @@ def select_model_obs(case, out):
     if case["kind"] == "pair":
         return [out[0]] * 4 + ["diff " + out[1]] if out else []
     if case["kind"] == "skolem":
-        return ["skolem-roundtrip-iso " + out[0]]
+        return ["skolem-roundtrip-iso " + out[0]] if out else []
     if case["kind"] == "hist":
         return ["step %d eq-copy=%s eq-mutant=%s" % (k, out[2 * k], out[2 * k + 1] if hist_steps(case)[k][2] is not None else "n/a")
                 for k in range(len(out) // 2)]
@@ -1149,7 +1262,12 @@ def run_skolem(case):
         if got != [good]:
             raise RuntimeError(f"ORACLE DISAGREEMENT (skolem) isoutil={good} lean={got} case={case}")
     nb = len(bn_of(gs))
-    return {"obs": ["skolem-roundtrip-iso " + b2s(good)], "viol": viol, "nontrivial": nb >= 2,
+    k2 = k2_ids(gs)
+    if k2:
+        stats["skolem_ids_skolemize_cannot_encode"] = 1
+    if any(is_b(x) and any(ch in x for ch in "/#?% ;<>") for t in gs for x in (t[0], t[2])):
+        stats["skolem_odd_bnode_ids"] = 1
+    return {"obs": [] if k2 else ["skolem-roundtrip-iso " + b2s(good)], "viol": viol, "nontrivial": nb >= 2,
             "key": repr(("skolem", case["variant"], nb, len(set(map(tuple, gs))), has_genid, sorted(gs)[:3])), "stats": stats}
 
 
@@ -1426,5 +1544,18 @@ def _m_traces_leaves(case, result):
     return len(prof) == 1 and prof[0] >= 5
 
 
-MATCHERS = {"genid_iri_in_input": _m_genid, "langtag_case": _m_langtag, "traces_unverified_generator": _m_traces,
+def _m_dotseg(case, result):
+    """(known, C14-K2) the skolem round trip fails *because* a blank-node id has a '.' / '..' path segment or contains
+    the genid path: the same graph with those ids replaced by plain ones round-trips"""
+    if case.get("kind") != "skolem" or not result["viol"] or any(v.split(":")[0] != "skolem" for v in result["viol"]):
+        return False
+    bad = k2_ids(case["g"])
+    if not bad:
+        return False
+    ren = {b: "_:plainid%d" % k for k, b in enumerate(bad)}
+    clean = {**case, "g": [[ren.get(x, x) for x in t] for t in case["g"]]}
+    return not run_skolem(clean)["viol"]
+
+
+MATCHERS = {"dot_segment_or_genid_in_bnode_id": _m_dotseg, "genid_iri_in_input": _m_genid, "langtag_case": _m_langtag, "traces_unverified_generator": _m_traces,
             "traces_equal_trace_leaves": _m_traces_leaves}
